@@ -60,8 +60,10 @@ METHODS = [("GCodeCore", "to_absolute"), ("GCodeCore", "_transform_move"), ("GCo
            ("GCodeBuilder", "move_absolute"), ("GCodeBuilder", "rapid_absolute"),
            ("GCodeBuilder", "set_axis"), ("GCodeBuilder", "auto_home"), ("GCodeBuilder", "probe"),
            ("GCodeCore", "comment"), ("GCodeBuilder", "halt"), ("GCodeBuilder", "wait"), ("GCodeBuilder", "pause"),
-           ("GCodeBuilder", "stop"), ("GCodeBuilder", "emergency_halt"), ("GCodeBuilder", "add_hook"), ("GCodeBuilder", "remove_hook")]
-ALREADY = {"write", "set_distance_mode", "_update_axes", "tool_off", "coolant_off"}    # translated by gen_builder.py (Gen/BuilderSrc.lean)
+           ("GCodeBuilder", "stop"), ("GCodeBuilder", "emergency_halt"), ("GCodeBuilder", "add_hook"), ("GCodeBuilder", "remove_hook"),
+           ("GCodeBuilder", "set_length_units")]
+CONTEXTS = [("GCodeCore", "absolute_mode"), ("GCodeCore", "relative_mode")]     # translated as an enter / exit pair
+ALREADY = {"write", "set_distance_mode", "_update_axes", "tool_off", "coolant_off", "set_resolution"}    # translated by gen_builder.py (Gen/BuilderSrc.lean)
 TYPES = {"PointLike": "Pt", "Point": "Pt", "ParamsDict": "MP"}
 RET = {"None": None, "Point": "Pt", "Tuple[str, ParamsDict]": "SStmt × MP", "Tuple[Point, Point]": "Pt × Pt"}
 ERR = {"ValueError": "valueError", "ToolStateError": "toolState", "CoolantStateError": "coolantState"}
@@ -76,6 +78,7 @@ class M(gen_builder.T):
             raise Unsupported("class GCodeCore not found")
         self.core = {n.name: n for n in cls[0].body if isinstance(n, ast.FunctionDef)}
         self.klass = {"GCodeBuilder": self.methods, "GCodeCore": self.core}
+        self.repo = repo
         self.check_properties(repo)
         self.sigs = {}            # (class, name) -> (param list [(name, type)], ret type or None)
 
@@ -136,6 +139,9 @@ class M(gen_builder.T):
             return f"decide ({cur}._distance_mode = DistanceMode.RELATIVE)", "Bool"
         if key == "self.state":
             return f"{cur}.state", "GState"
+        if isinstance(e, ast.Attribute) and ast.unparse(e.value) == "self.state" and e.attr in self.st.props:
+            f_ = self.st.props[e.attr]
+            return f"{cur}.state.{f_}", self.st.ftype[f_]
         if isinstance(e, ast.Attribute) and isinstance(e.value, ast.Name) and e.value.id in self.enums:
             if e.attr not in [m for m, _ in self.enums[e.value.id]]:
                 fail(e, f"{e.value.id} has no member {e.attr}")
@@ -160,6 +166,12 @@ class M(gen_builder.T):
                 if ty != "Pt":
                     fail(e, "apply_transform of a " + ty)
                 return f"(applyTransformId {t})", "Pt"
+            if isinstance(f, ast.Attribute) and f.attr in ("scale", "to_pixels") and len(e.args) == 1:
+                u, uty = self.mexpr(f.value, env)
+                v, vty = self.mexpr(e.args[0], env)
+                if uty == "LengthUnits" and vty == "Val":
+                    self.check_length_units()
+                    return f"(LengthUnits.{f.attr} {u} {v})", "Val"
             if fs == "len" and len(e.args) == 1 and ast.unparse(e.args[0]) == "self._hooks":
                 return f"({cur}._hooks.length : Int)", "Int"
             if fs == "len" and len(e.args) == 1 and isinstance(e.args[0], ast.Name) and env.get(e.args[0].id) == "Texts":
@@ -570,6 +582,10 @@ class M(gen_builder.T):
                     return (f"{ind}match fmtCommand \"{v.args[0].value}\" {a} with\n{ind}| none => {self.ret_err(env, '.valueError')}\n"
                             f"{ind}| some {name} =>\n" + self.mblock(rest, dict(env, **{name: "SStmt"}), depth + 1, cls))
                 # statement = self._get_statement(mode, params, comment)
+                if fs == "self._get_statement" and len(v.args) == 1 and not v.keywords:
+                    cls_, mem = self.enum_ref_m(v.args[0], env)
+                    return (f"{ind}match getStatement {cls_} {mem} [] with\n{ind}| none => {self.ret_err(env, '.valueError')}\n"
+                            f"{ind}| some {name} =>\n" + self.mblock(rest, dict(env, **{name: "SStmt"}), depth + 1, cls))
                 if fs == "self._get_statement" and 2 <= len(v.args) <= 3:
                     cls_, mem = self.enum_ref_m(v.args[0], env)
                     a, aty = self.mexpr(v.args[1], env)
@@ -603,6 +619,31 @@ class M(gen_builder.T):
             fail(e, f"_get_statement of a {ty}")
         self.need_enum(ty)
         return f'"{ty}"', f"({ty}.memberName {t})"
+
+    def check_length_units(self):
+        """the two conversions of `LengthUnits` and its table of factors, read from the enum's source"""
+        if getattr(self, "unit_factors", None):
+            return
+        f = self.repo / "gscrib" / "enums" / "units" / "length_units.py"
+        tree = ast.parse(f.read_text())
+        table = {}
+        for n in tree.body:
+            if isinstance(n, ast.Assign) and getattr(n.targets[0], "id", None) == "CONVERSIONS_FACTORS" and isinstance(n.value, ast.Dict):
+                for k, v in zip(n.value.keys, n.value.values):
+                    if not (isinstance(v, ast.BinOp) and isinstance(v.op, ast.Div) and isinstance(v.left, ast.Constant) and isinstance(v.right, ast.Constant)):
+                        raise Unsupported("CONVERSIONS_FACTORS entry " + ast.unparse(v))
+                    from fractions import Fraction
+                    table[k.value] = Fraction(repr(v.left.value)) / Fraction(repr(v.right.value))
+        cls = [n for n in tree.body if isinstance(n, ast.ClassDef) and n.name == "LengthUnits"][0]
+        meth = {n.name: [ast.unparse(b) for b in n.body if not (isinstance(b, ast.Expr) and isinstance(b.value, ast.Constant))]
+                for n in cls.body if isinstance(n, ast.FunctionDef)}
+        if meth.get("__init__") != ["self.scale_factor = CONVERSIONS_FACTORS[value]"] or meth.get("scale") != ["return value_in_px * self.scale_factor"] \
+                or meth.get("to_pixels") != ["return value_in_units / self.scale_factor"]:
+            raise Unsupported("LengthUnits.scale / to_pixels / __init__ are not the conversions the translation stands for: " + repr(meth))
+        members = dict((v, m) for m, v in self.enums["LengthUnits"])
+        if set(table) != set(members):
+            raise Unsupported("CONVERSIONS_FACTORS does not cover exactly the members of LengthUnits")
+        self.unit_factors = {members[v]: q for v, q in table.items()}
 
     def check_get_user_param(self):
         """`_get_user_param` is a primitive (`userParam`); make sure it still is what the primitive stands for"""
@@ -674,6 +715,29 @@ class M(gen_builder.T):
         rty = "BSt × Option Err" if ret is None else f"BSt × Except Err ({ret})"
         return (f"/-- `{cls}.{name}` (source line {m.lineno}) -/\ndef {cls}.{name} (self : BSt){sig} (h : Rat) : {rty} :=\n{body}")
 
+    def context_pair(self, cls, name):
+        """a `@contextmanager` generator `pre; try: yield; finally: post` as the pair (enter: pre, returns what post needs; exit: post)"""
+        gen = self.klass[cls][name]
+        if not any(getattr(d, "id", None) == "contextmanager" for d in gen.decorator_list) or gen.args.args[1:]:
+            fail(gen, f"{name} is not a parameterless @contextmanager")
+        body = [b for b in gen.body if not (isinstance(b, ast.Expr) and isinstance(b.value, ast.Constant))]
+        if not (body and isinstance(body[-1], ast.Try) and not body[-1].handlers and not body[-1].orelse and len(body[-1].body) == 1
+                and isinstance(body[-1].body[0], ast.Expr) and isinstance(body[-1].body[0].value, ast.Yield) and body[-1].body[0].value.value is None):
+            fail(gen, f"{name}: expected `pre; try: yield; finally: post`")
+        pre, post = body[:-1], body[-1].finalbody
+        stored = [n.id for b in pre for n in ast.walk(b) if isinstance(n, ast.Name) and isinstance(n.ctx, ast.Store)]
+        used = [n.id for b in post for n in ast.walk(b) if isinstance(n, ast.Name) and isinstance(n.ctx, ast.Load) and n.id in stored]
+        if sorted(set(used)) != ["previous"]:
+            fail(gen, f"{name}: the finally block is expected to use exactly the saved `previous` (uses {sorted(set(used))})")
+        env = {"$self": "self", "$n": [0], "$ret": "DistanceMode"}
+        enter = self.mblock(pre + [ast.Return(value=ast.Name(id="previous", ctx=ast.Load()))], env, 1, cls)
+        env2 = {"$self": "self", "$n": [0], "$ret": None, "previous": "DistanceMode"}
+        exit_ = self.mblock(list(post), env2, 1, cls)
+        return [f"/-- `{cls}.{name}` (source line {gen.lineno}): entering the context - everything before the `yield`; returns the saved mode -/\n"
+                f"def {cls}.{name}_enter (self : BSt) (h : Rat) : BSt × Except Err (DistanceMode) :=\n{enter}",
+                f"/-- `{cls}.{name}`: leaving the context - the `finally` block, whatever the body did -/\n"
+                f"def {cls}.{name}_exit (self : BSt) (previous : DistanceMode) (h : Rat) : BSt × Option Err :=\n{exit_}"]
+
     def lean_ty_m(self, ty):
         return {"VParams": "VParams", "MP": "MP", "Pt": "Pt", "Hook": "Hook"}.get(ty) or self.lean_ty(ty)
 
@@ -683,6 +747,8 @@ class M(gen_builder.T):
             self.method(n)
         have = set(self.extra_enums) | set(self.st.used_enums)
         meths = [self.motion_method(c, n) for c, n in METHODS]
+        for c, n in CONTEXTS:
+            meths += self.context_pair(c, n)
         new = [e for e in self.extra_enums if e not in have]
         out = ["/- GENERATED by tools/gen_motion.py from gscrib/gcode_builder.py and gscrib/gcode_core.py (source text, by AST). Do not edit. -/",
                "import GscribModel.Gen.BuilderSrc", "import GscribModel.Gen.PointSrc", "namespace GscribModel.Gen.MotionSrc",
@@ -698,6 +764,14 @@ class M(gen_builder.T):
             out.append(f"def {en}.memberName : {en} → String")
             out += [f"  | .{m} => \"{m}\"" for m, _ in ms]
             out.append("")
+        if getattr(self, "unit_factors", None):
+            out.append("/-- `CONVERSIONS_FACTORS` / `LengthUnits.scale` / `LengthUnits.to_pixels` (gscrib/enums/units/length_units.py) -/")
+            out.append("def LengthUnits.scale_factor : LengthUnits → Rat")
+            for m, _ in self.enums["LengthUnits"]:
+                q = self.unit_factors[m]
+                out.append(f"  | .{m} => (({q.numerator} : Rat) / {q.denominator})")
+            out.append("def LengthUnits.scale (u : LengthUnits) (value_in_px : Val) : Val := Val.mulQ value_in_px (LengthUnits.scale_factor u)")
+            out.append("def LengthUnits.to_pixels (u : LengthUnits) (value_in_units : Val) : Val := Val.divQ value_in_units (LengthUnits.scale_factor u)\n")
         out.append("/-- what a hook reads off the state object it is handed: `state.extrusion_mode`, `state.get_parameter(\"E\")` -/")
         out.append("def hookEnv (g : GState) : HookEnv :=\n  ⟨decide (g._current_extrusion_mode = ExtrusionMode.RELATIVE), (g._current_params.get \"E\").getD 0⟩\n")
         out += meths
